@@ -6,10 +6,13 @@ dispatch) on top of Model/MGHM.v (C05).  Each case passes one graph pair in seve
 (nested lists / dense / csr / csc / lil / coo / dok / dia / bsr matrices and csr / coo / csc sparse arrays, Fortran-ordered float / bool / int dense arrays, sparse matrices with explicitly stored zeros; upper, lower, mixed, symmetric, weighted; relabelled) or a
 collection of 1-5 graphs to persim.gromov_hausdorff; distance matrices, warnings, exceptions and
 lower bounds are compared with the model inside Coq (Corr/GraphCorr.v), and the spec (own BFS,
-components, brute-force mGH) is evaluated on the outputs independently of the model."""
+components, brute-force mGH) is evaluated on the outputs independently of the model.
+Element types of 8 / 16 bits (dense and sparse), the sequence that holds a collection (list, tuple, deque, object array,
+one stacked 3-D array, a lazily materialising Sequence), collections of 9-18 graphs, and call histories on shared
+argument objects (harness/history.py; every step is judged by the spec predicate) are generated as well."""
 import itertools
 
-from .. import core
+from .. import core, history
 from . import c05
 
 PID = "C17"
@@ -25,13 +28,28 @@ RULE = ("seeded generator: graphs with 1-7 vertices, connected or with 2-3 compo
         "encodings {upper, lower, mixed orientation, symmetric, weighted symmetric} x {identity, random relabelling}; "
         "collections of 1-5 graphs (1 must raise); graphs whose diameter is exactly 126..129 and 254..256 (dtype boundaries) against a single vertex / an edge; non-trivial = some graph is "
         "disconnected, or >= 3 distinct representations of a pair with >= 3 vertices, or a collection of >= 3 graphs; "
-        "distinct = distinct JSON input")
+        "distinct = distinct JSON input. "
+        "Element types: besides int64 / float64 / bool, C-contiguous dense arrays of int8, uint8, int16, uint16, float16, float32, bool and "
+        "csr / csc / coo / lil matrices of int8, uint8, bool, float32. "
+        "The sequence holding a collection: list, tuple, deque, 1-D object ndarray, ONE stacked 3-D ndarray (C- or Fortran-ordered; "
+        "members of one size), or a Sequence that builds a new member object on every __getitem__. "
+        "Big collections: 9, 10, 12 and 17 graphs of 1-5 vertices (thorough: 9-12, 17, 18, 33), mostly in 8- / 16-bit dense arrays, so "
+        "that one call converts each member more than 8 / 16 times. "
+        "Call histories (14 quick / 250 thorough; all steps in one process, equal (matrix, format) arguments and equal collections are "
+        "THE SAME objects, every returned array is overwritten by the caller after its values were read, every step must satisfy the "
+        "spec on the graphs handed over): repeat = one pair 9-12 times (>= 18 conversions of each object); loop = all ordered pairs of "
+        "3-5 graphs plus one graph against itself by identity; coll = collection, pair calls on its members, the collection again "
+        "under other RNG states, a rotated collection, a collection listing one object twice (the first coll histories of a run use a "
+        "list, a stacked array, a lazy sequence, an object array); fault = between clean calls, calls aborted half-way (warnings "
+        "escalated to errors on a disconnected graph, a ragged member, a malformed mapping_sample_size_order; their outcome is not "
+        "judged). A history is non-trivial when >= 2 judged steps involve a graph with >= 3 vertices or a disconnected graph")
 TRUSTED_BASE = [
     "Coq 8.16.1 kernel, vm_compute; development closed under the global context (no axioms)",
     "hand-written model Model/GraphM.v of gromov_hausdorff.py lines 143-263; its Floyd-Warshall is proved to be a "
     "correct shortest-path answer (hop_metric_is_shortest_path) and stands for scipy shortest_path / "
     "connected_components, which are compared with it per case",
-    "harness: generator of representations, warning/exception capture, printer, verdict parser",
+    "harness: generator of representations, warning/exception capture, printer, verdict parser; call histories "
+    "(harness/history.py: interning of argument objects, overwriting of returned arrays); histories are not run through the model",
     "independent Python predicate: BFS, components, branch-and-bound mGH between largest components",
 ]
 ASSUMPTIONS = [
@@ -42,6 +60,10 @@ ASSUMPTIONS = [
     "explicitly stored zeros in sparse inputs are non-edges (generated: formats *_xz, *_xzh); NaN/inf entries and "
     "non-square inputs are outside the generator",
     "the upper bound of a collection is random: each collection is run with several NumPy seeds",
+    "the property does not forbid persim to modify an argument in place: inside a history each later step is judged against the "
+    "graph that was originally handed over, so an in-place change is reported only when it changes a later result",
+    "adjacency weights are 1..9 (fit every generated element type); a collection is a sized, integer-indexable sequence "
+    "(generators without len() are outside the generator)",
     "lower-bound soundness inherits C05's explicit greedy-completeness hypothesis",
 ]
 COQ_DEPS = ["Corr/GraphCorr.vo"]
@@ -94,6 +116,19 @@ FORMATS = ["list", "dense", "csr", "csc", "lil", "csr_array", "coo", "dok", "dia
            # off-diagonal zero entries is EXPLICITLY STORED (between components of disconnected graphs and inside them);
            # a stored zero is not an edge
            "csr_xz", "csc_xz", "coo_xz", "bsr_xz", "csr_xzh", "csc_xzh", "coo_xzh", "bsr_xzh"]
+# C-contiguous dense arrays and sparse matrices of SMALL element types (what networkx.to_numpy_array(G, dtype=np.uint8) or
+# a bool mask gives): entries of such an input wrap around / overflow after a handful of in-place arithmetic operations
+SMALL_DENSE = ["dense_int8", "dense_uint8", "dense_int16", "dense_uint16", "dense_float16", "dense_float32", "dense_bool"]
+SMALL_SPARSE = {"csr_i8": ("csr", "int8"), "csr_u8": ("csr", "uint8"), "csc_i8": ("csc", "int8"), "coo_u8": ("coo", "uint8"),
+                "csr_b": ("csr", "bool"), "csr_f32": ("csr", "float32"), "lil_i8": ("lil", "int8")}
+SMALL = SMALL_DENSE + sorted(SMALL_SPARSE)
+FORMATS += SMALL
+# formats that give a 2-D ndarray (or nested lists): members of a collection handed over as ONE stacked 3-D array
+DENSE_FORMATS = ["list"] + [f for f in FORMATS if f.startswith("dense")]
+# the sequence that holds a collection: list / tuple / deque / 1-D object ndarray of the member objects; "stack" / "stack_F":
+# one 3-D ndarray of shape (N, n, n) (C- / Fortran-ordered) whose items As[i] are fresh views; "lazy": a Sequence that
+# builds a new member object on every __getitem__ (a loader)
+OUTERS = ["list", "tuple", "deque", "objarray", "lazy", "stack", "stack_F"]
 
 
 def _encode(rng, A, enc, perm):
@@ -161,6 +196,88 @@ def search_generate(rng, n):
     return _boundary_cases(rng, "thorough") + generate(rng, "quick")
 
 
+def _coll_case(rng, graphs, cls, fmt=None, outer=None, nseeds=6):
+    """a collection call; `outer` is the sequence type that holds the members (OUTERS).  A stacked 3-D array needs members
+    of one size in a dense format."""
+    outer = outer or rng.choice(["list", "tuple"] * 3 + OUTERS)
+    if outer.startswith("stack"):
+        n = len(graphs[0])
+        graphs = [g if len(g) == n else _any_graph(rng, 0.25, n, n) for g in graphs]
+        fmt = fmt if fmt in DENSE_FORMATS else rng.choice(DENSE_FORMATS)
+    fmt = fmt or rng.choice(FORMATS)
+    enc = rng.choice(ENCODINGS)
+    return {"cls": cls, "kind": "coll", "fmt": fmt, "outer": outer,
+            "graphs": [_encode(rng, g, enc, None) for g in graphs], "seed": rng.randrange(2 ** 31),
+            "seeds": [rng.randrange(2 ** 31) for _ in range(nseeds)]}
+
+
+def _big_collections(rng, tier):
+    """collections just above the sizes at which a member has been converted 8 / 16 times within ONE call (every member
+    takes part in N-1 pairs): 9-12 and 17-18 small graphs, mostly in small element types"""
+    out = []
+    sizes = [9, 10, 12, 17] if tier == "quick" else [9] * 6 + [10] * 6 + [11] * 4 + [12] * 4 + [17] * 4 + [18] * 3 + [33]
+    for k in sizes:
+        hi = 4 if k <= 12 else 3
+        graphs = [_any_graph(rng, 0.15, 1, hi) for _ in range(k)]
+        graphs[rng.randrange(k)] = c05._graph(rng, rng.choice(["path", "star", "spider", "sparse"]), hi + 1)
+        # 8-bit element types just above 8 conversions per member, 16-bit ones just above 16
+        fmt = rng.choice((SMALL_DENSE[:2] if k <= 12 else SMALL_DENSE[:5]) if rng.random() < 0.75 else SMALL)
+        out.append(_coll_case(rng, graphs, "collection_big%d" % k, fmt=fmt, outer=rng.choice(["list", "tuple", "objarray"]),
+                              nseeds=1 if k > 12 else 2))
+    return out
+
+
+def _step_pair(rng, G, H, fmt, enc, cls="step"):
+    return {"cls": cls, "kind": "pair", "G": G, "H": H, "seed": rng.randrange(2 ** 31),
+            "variants": [{"fmt": fmt, "enc": enc, "relabelled": False, "VG": G, "VH": H}]}
+
+
+def _histories(rng, n):
+    """Call histories (harness/history.py): the SAME argument objects (arrays, sparse matrices, nested lists, and the
+    sequence holding a collection) are handed to many calls of one process; whatever persim returned is overwritten by the
+    caller afterwards; every step must satisfy the spec on the graphs that were handed over.
+      repeat  one pair, 9-12 calls (each step converts each object twice: >= 16 conversions of an object)
+      loop    all ordered pairs of 3-5 graphs (a hand-written pairwise loop), G = H by identity included
+      coll    a collection, pair calls on its members, the collection again with other RNG states, a sub-collection
+      fault   calls that are aborted half-way (warnings escalated to errors on a disconnected graph, a ragged member, a
+              malformed mapping_sample_size_order) between clean calls on the same objects"""
+    hs, ncoll = [], 0
+    for h in range(n):
+        kind = ["repeat", "coll", "loop", "fault", "repeat", "coll", "coll"][h % 7]
+        fmt = rng.choice(SMALL_DENSE[:5] * 2 + SMALL + ["dense", "csr", "list", "dense_float"]) if rng.random() < 0.8 else rng.choice(FORMATS)
+        enc = rng.choice(ENCODINGS)
+        k = rng.randint(3, 5)
+        graphs = [_encode(rng, _any_graph(rng, 0.2, 2, 5), enc, None) for _ in range(k)]
+        if kind == "repeat":
+            steps = [_step_pair(rng, graphs[0], graphs[1], fmt, enc) for _ in range(rng.randint(9, 12))]
+        elif kind == "loop":
+            order = [(i, j) for i in range(k) for j in range(k) if i != j]
+            rng.shuffle(order)
+            order.insert(rng.randrange(len(order)), (0, 0))
+            steps = [_step_pair(rng, graphs[i], graphs[j], fmt, enc) for i, j in order[:14]]
+        elif kind == "coll":
+            ncoll += 1                               # the first ones of a run cover the main kinds of sequence
+            outer = ["list", "stack", "lazy", "objarray"][ncoll - 1] if ncoll <= 4 else rng.choice(["list"] * 2 + OUTERS)
+            c = _coll_case(rng, graphs, "step", fmt=fmt, outer=outer, nseeds=2)
+            c["graphs"] = graphs if not outer.startswith("stack") else c["graphs"]
+            g = c["graphs"]
+            again = dict(c, seed=rng.randrange(2 ** 31), seeds=[rng.randrange(2 ** 31) for _ in range(2)])
+            sub = dict(c, graphs=g[1:] + g[:1], seed=rng.randrange(2 ** 31), seeds=[])
+            dup = dict(c, graphs=[g[0], g[1], g[0]], outer="list" if outer.startswith("stack") else outer, seeds=[])
+            steps = [c, _step_pair(rng, g[0], g[1], c["fmt"], enc), again, _step_pair(rng, g[2], g[0], c["fmt"], enc), sub, dup, again]
+        else:
+            dis = _encode(rng, _disconnected(rng, rng.randint(3, 6)), enc, None)
+            ragged = [list(r) for r in graphs[1]][:-1] or [[0, 1]]
+            ok1, ok2 = _step_pair(rng, dis, graphs[0], fmt, enc), _step_pair(rng, graphs[0], dis, fmt, enc)
+            coll = _coll_case(rng, [dis, graphs[0], graphs[1]], "step", fmt=fmt, outer=rng.choice(["list", "tuple", "objarray"]), nseeds=1)
+            coll["graphs"] = [dis, graphs[0], graphs[1]]
+            steps = [ok1, dict(ok1, fault=True, werror=True), ok2,
+                     dict(coll, fault=True, graphs=[dis, graphs[0], ragged], fmt="list"), coll,
+                     dict(coll, fault=True, werror=True), dict(ok2, fault=True, msso=rng.choice([0.5, "x", [1]])), coll, ok1]
+        hs.append(history.make(kind, steps))
+    return hs
+
+
 def generate(rng, tier):
     n_pairs = 160 if tier == "quick" else 3000
     n_coll = 80 if tier == "quick" else 1500
@@ -176,12 +293,10 @@ def generate(rng, tier):
         graphs = [_any_graph(rng, 0.25, 1, 5) for _ in range(k)]
         if k >= 2 and rng.random() < 0.6:        # a non-vertex-transitive member (path / star / spider / tree)
             graphs[rng.randrange(k)] = c05._graph(rng, rng.choice(["path", "star", "spider", "sparse"]), rng.randint(4, 6))
-        enc = rng.choice(ENCODINGS)
-        cases.append({"cls": "collection%d" % k, "kind": "coll", "fmt": rng.choice(FORMATS), "outer": rng.choice(["list", "tuple"]),
-                      "graphs": [_encode(rng, g, enc, None) for g in graphs], "seed": rng.randrange(2 ** 31),
-                      "seeds": [rng.randrange(2 ** 31) for _ in range(6)]})
+        cases.append(_coll_case(rng, graphs, "collection%d" % k))
+    cases += _big_collections(rng, tier)
     cases += _boundary_cases(rng, tier)
-    return cases
+    return cases + _histories(rng, 14 if tier == "quick" else 250)
 
 
 def _corpus_files():
@@ -214,6 +329,9 @@ def corpus():
 
 
 def shrink_candidates(c):
+    if history.is_hist(c):
+        yield from history.shrink(c)
+        return
     if c["kind"] == "pair":
         if len(c["variants"]) > 1:
             for k in range(len(c["variants"])):
@@ -236,42 +354,92 @@ def shrink_candidates(c):
 
 
 # ---------------------------------------------------------------- the implementation
-def impl_run(cases):
+def _conv(A, fmt):
+    """the adjacency matrix A (nested lists) as a fresh object of container / element type `fmt`"""
+    import numpy as np
+    import scipy.sparse as sps
+    a = np.array(A)
+    if fmt == "list":
+        return [list(r) for r in A]
+    if fmt == "dense":
+        return a
+    if fmt in SMALL_SPARSE:
+        base, dt = SMALL_SPARSE[fmt]
+        b = (a != 0) if dt == "bool" else a.astype(dt)
+        return getattr(sps, base + "_matrix")(b)
+    if "_xz" in fmt:
+        base, flavour = fmt.split("_")
+        n = len(A)
+        rows, cols, data = [], [], []
+        for i in range(n):
+            for j in range(n):
+                keep = flavour == "xz" or (i * 7 + j * 13 + n) % 3 != 0
+                if a[i, j] != 0 or (i != j and keep):
+                    rows.append(i); cols.append(j); data.append(int(a[i, j]))
+        return sps.coo_matrix((data, (rows, cols)), shape=(n, n)).asformat(base)
+    if fmt.startswith("dense_"):
+        name = fmt.split("_")[1]
+        dt = {"float": float, "bool": bool, "int": int}.get(name) or np.dtype(name)
+        b = (a != 0).astype(dt) if dt is bool else a.astype(dt)
+        return b.T.copy().T if fmt.endswith("_F") else np.ascontiguousarray(b)  # _F: same content, column-major memory layout
+    return {"csr": sps.csr_matrix, "csc": sps.csc_matrix, "lil": sps.lil_matrix, "csr_array": sps.csr_array,
+            "coo": sps.coo_matrix, "dok": sps.dok_matrix, "dia": sps.dia_matrix, "bsr": sps.bsr_matrix,
+            "coo_array": sps.coo_array, "csc_array": sps.csc_array}[fmt](a)
+
+
+def _container(members, outer, fresh):
+    """the sequence handed to a collection call; `members` are the member objects, `fresh(i)` builds member i anew"""
+    import collections
+    import collections.abc
+    import numpy as np
+    if outer == "list":
+        return list(members)
+    if outer == "tuple":
+        return tuple(members)
+    if outer == "deque":
+        return collections.deque(members)
+    if outer == "objarray":
+        arr = np.empty(len(members), dtype=object)
+        for i, m in enumerate(members):
+            arr[i] = m
+        return arr
+    if outer in ("stack", "stack_F"):
+        st = np.stack([np.asarray(m) for m in members]) if members else np.zeros((0, 1, 1))
+        return np.asfortranarray(st) if outer == "stack_F" else st
+    if outer == "lazy":
+        class Lazy(collections.abc.Sequence):
+            def __len__(self):
+                return len(members)
+
+            def __getitem__(self, i):
+                if not isinstance(i, int) and not hasattr(i, "__index__"):
+                    raise TypeError("integer index expected")
+                if not -len(members) <= i < len(members):
+                    raise IndexError(i)
+                return fresh(int(i) % len(members))
+        return Lazy()
+    raise KeyError(outer)
+
+
+def impl_call(c, memo):
+    """One case.  memo is None: every call gets freshly built argument objects.  Inside a history (memo is a dict) equal
+    (matrix, format) arguments of all steps are THE SAME objects, likewise the sequences holding collections, and whatever
+    persim returned is overwritten after its values have been read."""
     import sys
     import warnings
     import numpy as np
-    import scipy.sparse as sps
-    import persim
+    import persim  # noqa
     mod = sys.modules["persim.gromov_hausdorff"]
     gh = mod.gromov_hausdorff
 
     def conv(A, fmt):
-        a = np.array(A)
-        if fmt == "list":
-            return [list(r) for r in A]
-        if fmt == "dense":
-            return a
-        if "_xz" in fmt:
-            base, flavour = fmt.split("_")
-            n = len(A)
-            rows, cols, data = [], [], []
-            for i in range(n):
-                for j in range(n):
-                    keep = flavour == "xz" or (i * 7 + j * 13 + n) % 3 != 0
-                    if a[i, j] != 0 or (i != j and keep):
-                        rows.append(i); cols.append(j); data.append(int(a[i, j]))
-            return sps.coo_matrix((data, (rows, cols)), shape=(n, n)).asformat(base)
-        if fmt.startswith("dense_"):
-            dt = {"float": float, "bool": bool, "int": int}[fmt.split("_")[1]]
-            b = (a != 0).astype(dt) if dt is bool else a.astype(dt)
-            return b.T.copy().T if fmt.endswith("_F") else b       # same content, column-major memory layout
-        return {"csr": sps.csr_matrix, "csc": sps.csc_matrix, "lil": sps.lil_matrix, "csr_array": sps.csr_array,
-                "coo": sps.coo_matrix, "dok": sps.dok_matrix, "dia": sps.dia_matrix, "bsr": sps.bsr_matrix,
-                "coo_array": sps.coo_array, "csc_array": sps.csc_array}[fmt](a)
+        if memo is None:
+            return _conv(A, fmt)
+        return history.intern(memo, ["arr", A, fmt], lambda: _conv(A, fmt))
 
     def watched(fn):
         with warnings.catch_warnings(record=True) as w:
-            warnings.simplefilter("always")
+            warnings.simplefilter("error" if c.get("werror") else "always")
             try:
                 r = fn()
             except Exception as e:  # noqa
@@ -279,37 +447,58 @@ def impl_run(cases):
             r["warned"] = any("disconnected" in str(x.message) for x in w)
             return r
 
+    kw = {"mapping_sample_size_order": c["msso"]} if "msso" in c else {}
+
     def dm(A, fmt):
         def f():
-            D = mod.make_distance_matrix_from_adjacency_matrix(conv(A, fmt))
-            D = np.asarray(D)
-            return {"D": [[int(v) for v in r] for r in D], "shape": list(D.shape), "dtype": str(D.dtype)}
+            D0 = mod.make_distance_matrix_from_adjacency_matrix(conv(A, fmt))
+            D = np.asarray(D0)
+            r = {"D": [[int(v) for v in r] for r in D], "shape": list(D.shape), "dtype": str(D.dtype)}
+            if memo is not None:
+                history.scribble(D0)
+            return r
         return watched(f)
 
+    if c["kind"] == "pair":
+        vo = []
+        for v in c["variants"]:
+            def call(v=v):
+                np.random.seed(c["seed"])
+                l, u = gh(conv(v["VG"], v["fmt"]), conv(v["VH"], v["fmt"]), **kw)
+                return {"lb": float(l), "ub": float(u)}
+            vo.append({"dmG": dm(v["VG"], v["fmt"]), "dmH": dm(v["VH"], v["fmt"]), "gh": watched(call)})
+        return {"variants": vo}
+
+    def build():
+        members = [conv(g, c["fmt"]) for g in c["graphs"]]
+        return _container(members, c.get("outer", "list"), lambda i: _conv(c["graphs"][i], c["fmt"]))
+
+    def call(seed):
+        np.random.seed(seed)
+        if memo is None:
+            As = build()
+        else:
+            As = history.intern(memo, ["outer", c["graphs"], c["fmt"], c.get("outer", "list")], build)
+        lbs0, ubs0 = gh(As, **kw)
+        lbs, ubs = np.asarray(lbs0), np.asarray(ubs0)
+        r = {"lbs": [[float(x) for x in r] for r in lbs], "ubs": [[float(x) for x in r] for r in ubs],
+             "shape": [list(lbs.shape), list(ubs.shape)]}
+        if memo is not None:
+            history.scribble(lbs0)
+            history.scribble(ubs0)
+        return r
+    seeds = [c["seed"]] + list(c.get("seeds", []))
+    runs = [watched(lambda s=s: call(s)) for s in seeds]
+    return {"coll": runs[0], "more": runs[1:]}
+
+
+def impl_run(cases):
     outs = []
     for c in cases:
-        if c["kind"] == "pair":
-            vo = []
-            for v in c["variants"]:
-                def call(v=v):
-                    np.random.seed(c["seed"])
-                    l, u = gh(conv(v["VG"], v["fmt"]), conv(v["VH"], v["fmt"]))
-                    return {"lb": float(l), "ub": float(u)}
-                vo.append({"dmG": dm(v["VG"], v["fmt"]), "dmH": dm(v["VH"], v["fmt"]), "gh": watched(call)})
-            outs.append({"variants": vo})
-        else:
-            def call(seed):
-                np.random.seed(seed)
-                As = [conv(g, c["fmt"]) for g in c["graphs"]]
-                if c["outer"] == "tuple":
-                    As = tuple(As)
-                lbs, ubs = gh(As)
-                lbs, ubs = np.asarray(lbs), np.asarray(ubs)
-                return {"lbs": [[float(x) for x in r] for r in lbs], "ubs": [[float(x) for x in r] for r in ubs],
-                        "shape": [list(lbs.shape), list(ubs.shape)]}
-            seeds = [c["seed"]] + list(c.get("seeds", []))
-            runs = [watched(lambda s=s: call(s)) for s in seeds]
-            outs.append({"coll": runs[0], "more": runs[1:]})
+        try:
+            outs.append(history.run(c, impl_call) if history.is_hist(c) else impl_call(c, None))
+        except Exception as e:  # noqa  (building the arguments failed: harness error, shown as such)
+            outs.append({"error": type(e).__name__, "msg": "harness: " + str(e)[:200]})
     return outs
 
 
@@ -353,6 +542,10 @@ def _check_bracket(A, B, lb, ub, what):
 
 
 def predicate(c, o):
+    if history.is_hist(c):
+        return history.predicate(c, o, predicate)
+    if not ("variants" in o or "coll" in o):
+        return False, "harness: the arguments could not be built: %s" % str(o)[:200]
     if c["kind"] == "pair":
         ident_lbs = set()
         for k, (v, vo) in enumerate(zip(c["variants"], o["variants"])):
@@ -415,6 +608,12 @@ def _coll_predicate(c, g, n):
 
 
 def nontrivial(c, o):
+    if history.is_hist(c):
+        # >= 2 judged steps that share an argument object, on graphs with >= 3 vertices or a disconnected one
+        def step_ok(s, so):
+            gs = [s["G"], s["H"]] if s["kind"] == "pair" else s["graphs"]
+            return max(len(g) for g in gs) >= 3 or any(len(_components(g)) > 1 for g in gs)
+        return history.nontrivial(c, o, step_ok)
     if c["kind"] == "pair":
         if any(len(_components(v["VG"])) > 1 or len(_components(v["VH"])) > 1 for v in c["variants"][:1]):
             return True
@@ -491,7 +690,10 @@ def coq_judge(cases, outs, results):
     verdicts = [None] * len(cases)
     terms, idx = [], []
     for i, (c, o) in enumerate(zip(cases, outs)):
-        t = _term(c, o)
+        if history.is_hist(c):
+            verdicts[i] = "skip:history (every step is judged by the spec predicate)"
+            continue
+        t = _term(c, o) if ("variants" in o or "coll" in o) else None
         if t == "SKIP":
             verdicts[i] = "skip:more than 140 vertices, model not run (the predicate knows the exact distance)"
         elif t is None:
